@@ -1,7 +1,7 @@
 """C06 - behaviour depends on the dataflow only: wiring order metamorphic relation + node sharing (interning) counts."""
 from __future__ import annotations
 import copy, re
-from .runner import Result, Violation
+from .runner import Result, Violation, scaled
 from .gen_core import gen_case
 from .prog import S, Stmt
 from . import model as M
@@ -201,7 +201,7 @@ def shuffle_order(rng, case, reroute=True):
 
 
 def generate(rng, tier, seed):
-    n = 120 if tier == "quick" else 2000
+    n = scaled(120 if tier == "quick" else 2000)
     cases = []
     for k in range(n):
         base = gen_case(rng, f"c06_{seed}_{k}", n_nodes=rng.choice([4, 7, 12, 20]), max_depth=1)
